@@ -25,3 +25,4 @@ open GqlVerif.C18
 #print axioms empty_list_is_ok
 #print axioms non_string_value_is_error
 #print axioms derive_keys_match_source
+#print axioms option_spellings_match_source
